@@ -410,6 +410,7 @@ type loopSpec struct {
 	invariants []*clause
 	decreases  *clause
 	exits      []*clause // asserted on every edge leaving the loop
+	bodies     []*clause // asserted at every back edge about ONE iteration (events are iteration-local)
 }
 
 type slotClause struct {
@@ -484,6 +485,7 @@ type lemmaSpec struct {
 type immDecl struct {
 	pkg   string
 	typ   string
+	via   string // `immutable Owner.via.leaf`: the struct embedded in field via of Owner
 	field string
 	props []string
 	line  specLine
@@ -638,7 +640,11 @@ func (ss *SpecSet) parseContracts(pkg string, lines []specLine) {
 					fail(l, "immutable Type.field")
 					continue
 				}
-				ss.immutables = append(ss.immutables, immDecl{pkg: pkg, typ: d[:i], field: d[i+1:], props: curProps, line: l})
+				typ, via := d[:i], ""
+				if j := strings.Index(typ, "."); j > 0 {
+					typ, via = typ[:j], typ[j+1:]
+				}
+				ss.immutables = append(ss.immutables, immDecl{pkg: pkg, typ: typ, via: via, field: d[i+1:], props: curProps, line: l})
 			}
 			continue
 		case "lemma", "axiom":
@@ -727,6 +733,8 @@ func (ss *SpecSet) parseContracts(pkg string, lines []specLine) {
 				ls.decreases = c
 			} else if what == "exit" {
 				ls.exits = append(ls.exits, c)
+			} else if what == "body" {
+				ls.bodies = append(ls.bodies, c)
 			} else {
 				fail(l, "unknown loop clause %q", what)
 			}
